@@ -166,6 +166,10 @@ skip_object(const uint8_t * buf, const uint8_t * end)
 		/* Otherwise we should have a comma. */
 		if (*buf++ != ',')
 			return (end);
+
+		/* A name must follow the comma; we can't have hit the end. */
+		if (buf == end)
+			return (end);
 	} while (1);
 
 	/* NOTREACHED */
